@@ -1,8 +1,7 @@
 import Bardolph.Proofs.ParseTokTerm
 /-!
 The whole parse of the model, on an arbitrary token list whose tokens satisfy `tokOk`: it ends in
-`accept`, or in `reject` with at least one message, each carrying the line of an input token or 0,
-or — only if a NUMBER token cannot be converted — in the `ValueError` of `int()`.
+`accept` or in `reject` with at least one message, each carrying the line of an input token or 0.
 -/
 namespace Bardolph.ParseTok
 open Bardolph
@@ -101,8 +100,7 @@ theorem inv_initState {toks : List Tok} (h : ∀ t ∈ toks, tokOk t = true) : I
 theorem parseTokens_outcome {toks : List Tok} (h : ∀ t ∈ toks, tokOk t = true) :
     (∃ prog, parseTokens toks = .accept prog) ∨
     (∃ msgs, parseTokens toks = .reject msgs ∧ msgs ≠ [] ∧
-      ∀ m ∈ msgs, m.1 = 0 ∨ ∃ t ∈ toks, t.line = m.1) ∨
-    (parseTokens toks = .raised "ValueError" ∧ ∃ tok ∈ toks, badNum tok) := by
+      ∀ m ∈ msgs, m.1 = 0 ∨ ∃ t ∈ toks, t.line = m.1) := by
   have hi := inv_initState h
   have hg := good_script (fuel := 8 * toks.length + 16) hi
     (by rw [initState_rest_length]; omega)
@@ -115,7 +113,7 @@ theorem parseTokens_outcome {toks : List Tok} (h : ∀ t ∈ toks, tokOk t = tru
     simp [outcomeOf, this]
   | fail s =>
     rw [hr] at hg
-    right; left
+    right
     obtain ⟨new, hne, he, hl⟩ := hg.errors
     rw [initState_errors, List.nil_append] at he
     refine ⟨new, ?_, hne, ?_⟩
@@ -131,16 +129,7 @@ theorem parseTokens_outcome {toks : List Tok} (h : ∀ t ∈ toks, tokOk t = tru
         rcases List.mem_append.mp ht with h1 | h1
         · exact .inr ⟨t, h1, hlt⟩
         · simp at h1; subst h1; exact .inl hlt.symm
-  | raised k s =>
-    rw [hr] at hg
-    obtain ⟨hk, tok, hm, hb⟩ := hg
-    right; right
-    subst hk
-    refine ⟨rfl, tok, ?_, hb⟩
-    rw [initState_toks] at hm
-    rcases List.mem_append.mp hm with h1 | h1
-    · exact h1
-    · simp at h1; subst h1; exact absurd hb.1 (by decide)
+  | raised k s => rw [hr] at hg; cases hg
   | oof => rw [hr] at hg; cases hg
 
 end Bardolph.ParseTok
